@@ -163,3 +163,18 @@ pub fn href_chain(text: &str, id: &str, max_steps: usize) -> Result<(Vec<String>
     }
     Ok((ids, ended))
 }
+
+/// Trace line for `State::enter_def`: the node, the in-progress stack, and the decision.
+pub fn log_enter_def(node: SvgNode, stack: &[SvgNode]) {
+    log(|| {
+        let n = node.id().get_usize();
+        let st: Vec<usize> = stack.iter().map(|x| x.id().get_usize()).collect();
+        let cut = stack.contains(&node);
+        format!(
+            "enter_def {} [{}] {}",
+            n,
+            st.iter().map(|x| x.to_string()).collect::<Vec<_>>().join(","),
+            if cut { "cut" } else { "push" }
+        )
+    });
+}
